@@ -86,7 +86,8 @@ def fam_layout(ctx, rng):
         ctx.count("ambiguous_skipped" if amb else "fewer_than_four_inside")
         return
     try:
-        w, ind = hvsrpy.HvsrSpatial(P).spatial_weights(B)
+        Pa, Ba = (P.tolist(), B.tolist()) if rng.random() < 0.3 else (P, B)      # nested lists or arrays
+        w, ind = hvsrpy.HvsrSpatial(Pa).spatial_weights(Ba)
     except Exception as e:
         ctx.check(False, "no-unexpected-error", f"spatial_weights raised {e!r}", **info)
         return
